@@ -414,12 +414,15 @@ def sf_implies(ex, state, e):
         return VBool(True)
     n = len(state.pc)
     state.pc.append(a)
+    ex.quant_facts.append(a)
     try:
         b = ex.truthy(state, ex.ev(state, e.args[1]))
         new = state.pc[n + 1:]
     except BaseException:
         state.pc = state.pc[:n]
         raise
+    finally:
+        ex.quant_facts.pop()
     # facts produced while evaluating the consequent (definitions of merged values, type facts) stay, guarded
     state.pc = state.pc[:n] + [z3.Implies(a, x) for x in new]
     return VBool(z3.Implies(a, b))
